@@ -184,6 +184,11 @@ func writesetRules(c *Ctx) {
 			case w.root == "pkgvar":
 				bad = append(bad, "package variable written: "+e.describe(w))
 			case w.root == "unknown":
+				// the documented in-place rename again, reached through a closure parameter (a hook called per entry)
+				if fv := w.finalField(); fv != nil && fv.Name() == "ID" && strings.HasSuffix(core.OwnerStruct(c.P, fv), ".OperationProps") {
+					c.S.Exempt("C17", "WRITESET", "Mixin/mixins/Operation.ID", c.P.Pos(w.pos), "documented: operation ids of merged operations are renamed in place on collision (C18)")
+					continue
+				}
 				for _, s := range w.steps {
 					if isDocStep(s) {
 						bad = append(bad, "document storage written through an unresolved alias: "+e.describe(w))
